@@ -141,6 +141,14 @@ CHECKS = {
        'same trees and on a child with symbolic content over all of Unicode.',
   design_ref='DESIGN.md §4 C19',
   technique='CrossHair symbolic execution of real match_contains/match_empty + z3 (symbolic search strings), reference text oracle, replay'),
+ 'C17': dict(
+  text='Checking of the partition / disjointness / implication laws of the statement as set identities over real select() '
+       'results, and of :default, :indeterminate, :placeholder-shown and the range domain against reference definitions '
+       '(form owner, radio group, iframe = document boundary), on 300/3000 seeded forms documents (nested forms, fieldsets, '
+       'optgroups, radio groups spread over forms and iframes) plus parser-built ones, chosen by symbolic index; the same '
+       'laws with symbolic type / placeholder / value / name / dir strings on a compact document (time-boxed).',
+  design_ref='DESIGN.md §4 C17',
+  technique='CrossHair symbolic execution of real state pseudo-classes + z3 (symbolic attribute strings), set-law and reference oracles, replay'),
 }
 
 NOT_APPLICABLE = {
